@@ -1,5 +1,7 @@
 ------------------------------ MODULE MC_Heap ------------------------------
 EXTENDS AxCutHeap, Json
 \* every generated history is printed (one line of JSON) for replay into the real backends
-EmitHist == hist # <<>> => PrintT("HIST " \o ToJson(hist))
+\* together with the abstract heap summary the design predicts after it (compared with the concrete heap of the generated code)
+EmitHist == hist # <<>> => PrintT("HIST " \o ToJson([h |-> hist, fin |-> [hp |-> hp.b, fp |-> fp.b, nlin |-> hv.nlinear, ndef |-> hv.ndeferred,
+                                                                         reach |-> hv.reach, F |-> hv.F]]))
 =============================================================================
